@@ -40,7 +40,8 @@ def _impl():
 def gen_case(tier):
     ent = st.sampled_from([16, 20, 24, 28, 32]).flatmap(lambda n: st.binary(min_size=n, max_size=n))
     pw = st.one_of(st.just(""), S.unicode_text(12), st.text(alphabet=b58.ALPHABET, min_size=1, max_size=12),
-                   st.sampled_from(["1", "m", "bc1q", "xpub", "password", "BIP44", "groups", "path"]))
+                   st.sampled_from(["1", "m", "bc1q", "xpub", "password", "BIP44", "groups", "path"]),
+                   __import__("vlib.props.c06", fromlist=["JSONISH"]).JSONISH)
     return st.fixed_dictionaries({
         "source": st.sampled_from(["mnemonic", "mnemonic", "seed", "xprv"]), "entropy": ent, "pw": pw,
         "seed": st.binary(min_size=64, max_size=64), "decoy": st.binary(min_size=64, max_size=64),
